@@ -305,7 +305,11 @@ func draw(t *rapid.T) Case {
 	if bytes.Equal(cs.Key, cs.Other) {
 		cs.Other[31] ^= 0xff
 	}
-	switch rapid.IntRange(0, 6).Draw(t, "badmode") {
+	switch rapid.IntRange(0, 8).Draw(t, "badmode") {
+	case 7: // the right key with extra bytes appended
+		cs.BadKey = append(append([]byte{}, cs.Key...), bytes.Repeat([]byte{9}, rapid.SampledFrom([]int{1, 32}).Draw(t, "extlen"))...)
+	case 8: // the right key cut short
+		cs.BadKey = append([]byte{}, cs.Key[:31]...)
 	case 0:
 		cs.BadNil = true
 	case 1:
